@@ -208,7 +208,7 @@ func (e *Engine) verifyFunc(fn *ssa.Function, c *Contract, prop string) (rep *Fu
 			if len(en.Props) > 0 && prop != "" && !contains(en.Props, prop) {
 				continue
 			}
-			env := &SpecEnv{e: e, pre: e.entry, post: o.st, vars: ovars, pkg: pkg, paramsFirst: true, allocBefore: e.entry.allocTerm(), params: vars, topFr: fr}
+			env := &SpecEnv{e: e, pre: e.entry, post: o.st, vars: ovars, pkg: pkg, paramsFirst: true, allocBefore: e.entry.allocTerm(), params: vars, topFr: orFrame(o.fr, fr)}
 			g := env.evalBool(en.E)
 			e.emit(&Obligation{Kind: "post", Fn: key, Label: orStr(en.Label, fmt.Sprint(i+1)), PC: o.st.pc, Goal: g, Src: en.Src, Line: en.Line, Trace: o.st.trace})
 		}
@@ -420,4 +420,11 @@ func shortHeapKey(k string) string {
 		rest = rest[j+1:]
 	}
 	return head + ":" + rest
+}
+
+func orFrame(a, b *Frame) *Frame {
+	if a != nil {
+		return a
+	}
+	return b
 }
